@@ -7,6 +7,7 @@ knobs and the clock vary per history.  Oracle = in-memory dataset model recorded
 
 from __future__ import annotations
 
+import json
 import os
 import random
 
@@ -409,6 +410,10 @@ def gen_history(rng: random.Random, tier: str) -> dict:
                 ]
             )
             ops.append(["filter", src, dst, f])
+            if rng.random() < 0.2 and f["name"] != "collect_generation_meta":
+                dst2 = "s%d" % len(slots)
+                slots.append(dst2)
+                ops.append(["filter", dst, dst2, json.loads(json.dumps(f))])  # the same filter recorded twice in a row
         elif r < 0.36:
             ops.append(["threshold", rng.choice(thresholds)])
         elif r < 0.42:
